@@ -206,6 +206,10 @@ def step (line : String) : String :=
     match hx d with
     | some d => exc hexOut (prodTlsCert d)
     | none => "bad-op"
+  | ["prod-certchk", d] =>   -- only the checks of get_tls_cert (header CRC, length limit, SHA-256 over `length` bytes)
+    match hx d with
+    | some d => (match prodTlsCert d with | .ok _ => "ok" | .error e => "err " ++ e.name)
+    | none => "bad-op"
   | ["b64-enc", d] => match hx d with | some d => "ok " ++ hexOut (b2a d) | none => "bad-op"
   | ["b64-dec", t] => match natList? t with | some t => exc hexOut (asciiOf t >>= a2b) | none => "bad-op"
   | ["url-enc", d] => match hx d with | some d => "ok " ++ hexOut (b64urlEncode d) | none => "bad-op"
